@@ -85,6 +85,33 @@ template <class P> struct Alg {
                << ",\"coms\":" << jv<P>(mps.getMassCenter()) << ",\"coms2\":" << jv<P>(SIs.getMassCenter())
                << ",\"valid\":" << (Inertia_<P>::isValidInertiaMatrix(Io.asSymMat33()) ? 1 : 0);
         }
+        else if (kind == "nxyz") {
+            const V3 q(angle(c["q"][0]), angle(c["q"][1]), angle(c["q"][2])), qd = vec(c["qd"]);
+            const V3 wB = vec(c["wB"]), wBd = vec(c["wBd"]), wP = vec(c["wP"]), wPd = vec(c["wPd"]), probe((P)1, (P)-2, (P)3);
+            const Vec<2, P> cxy(std::cos(q[0]), std::cos(q[1])), sxy(std::sin(q[0]), std::sin(q[1])); const P ooc = 1 / cxy[1];
+            js << "\"NB\":" << jm(Rot::calcNForBodyXYZInBodyFrame(q)) << ",\"NP\":" << jm(Rot::calcNForBodyXYZInParentFrame(q))
+               << ",\"NinvB\":" << jm(Rot::calcNInvForBodyXYZInBodyFrame(q)) << ",\"NinvP\":" << jm(Rot::calcNInvForBodyXYZInParentFrame(q))
+               << ",\"NdotB\":" << jm(Rot::calcNDotForBodyXYZInBodyFrame(q, qd)) << ",\"NdotP\":" << jm(Rot::calcNDotForBodyXYZInParentFrame(q, qd))
+               << ",\"wB\":" << jv<P>(Rot::convertBodyXYZDotToAngVelInBodyFrame(q, qd))
+               << ",\"qdB\":" << jv<P>(Rot::convertAngVelInBodyFrameToBodyXYZDot(q, wB))
+               << ",\"qddB\":" << jv<P>(Rot::convertAngVelDotInBodyFrameToBodyXYZDotDot(q, wB, wBd))
+               << ",\"qdP\":" << jv<P>(Rot::convertAngVelInParentToBodyXYZDot(cxy, sxy, ooc, wP))
+               << ",\"qddP\":" << jv<P>(Rot::convertAngAccInParentToBodyXYZDotDot(cxy, sxy, ooc, qd, wPd))
+               << ",\"mN\":" << jv<P>(Rot::multiplyByBodyXYZ_N_P(cxy, sxy, ooc, probe)) << ",\"mNT\":" << jv<P>(Rot::multiplyByBodyXYZ_NT_P(cxy, sxy, ooc, probe))
+               << ",\"mNinv\":" << jv<P>(Rot::multiplyByBodyXYZ_NInv_P(cxy, sxy, probe)) << ",\"mNinvT\":" << jv<P>(Rot::multiplyByBodyXYZ_NInvT_P(cxy, sxy, probe));
+        }
+        else if (kind == "nquat") {
+            Vec<4, P> q; for (int i = 0; i < 4; ++i) q[i] = (P)(c["q"][i]["k"].dbl() / std::pow(5.0, c["q"][i]["m"].dbl()));
+            const V3 w = vec(c["w"]), wd = vec(c["wd"]); Vec<4, P> qdot; for (int i = 0; i < 4; ++i) qdot[i] = (P)c["qdot"][i].dbl();
+            const Mat<4, 3, P> N = Rot::calcUnnormalizedNForQuaternion(q), Nd = Rot::calcUnnormalizedNDotForQuaternion(qdot); const Mat<3, 4, P> Ni = Rot::calcUnnormalizedNInvForQuaternion(q);
+            const Vec<4, P> qd = Rot::convertAngVelToQuaternionDot(q, w), qdd = Rot::convertAngVelDotToQuaternionDotDot(q, w, wd), Ndw = Nd * w;
+            const Mat<3, 3, P> NiN = Ni * N; const Vec<4, P> q2 = q * (P)2;
+            const Mat<3, 3, P> NiN2 = Rot::calcUnnormalizedNInvForQuaternion(q2) * Rot::calcUnnormalizedNForQuaternion(q2);
+            js << "\"qd\":[" << num(qd[0]) << "," << num(qd[1]) << "," << num(qd[2]) << "," << num(qd[3]) << "]"
+               << ",\"qdd\":[" << num(qdd[0]) << "," << num(qdd[1]) << "," << num(qdd[2]) << "," << num(qdd[3]) << "]"
+               << ",\"Ndw\":[" << num(Ndw[0]) << "," << num(Ndw[1]) << "," << num(Ndw[2]) << "," << num(Ndw[3]) << "]"
+               << ",\"wback\":" << jv<P>(Rot::convertQuaternionDotToAngVel(q, qdot)) << ",\"NiN\":" << jm(NiN) << ",\"NiN2\":" << jm(NiN2);
+        }
         else if (kind == "valid") {
             const SymMat<3, P> M((P)c["d"][0].dbl(), (P)c["p"][0].dbl(), (P)c["d"][1].dbl(), (P)c["p"][1].dbl(), (P)c["p"][2].dbl(), (P)c["d"][2].dbl());
             js << "\"ok\":" << (Inertia_<P>::isValidInertiaMatrix(M) ? 1 : 0);
